@@ -1,3 +1,85 @@
-(* C09 -- theorems are added below as they are proved. *)
-From Coq Require Import ZArith List.
-From EG Require Import Num.Num Model.Poly.
+(* C09  Least-squares fits are optimal. *)
+From Coq Require Import ZArith Reals List Lra.
+From Coquelicot Require Import Coquelicot.
+From EG Require Import Num.Num Num.RNum Lib.Vec Model.Poly Proofs.Poly Proofs.CircleJac.
+Import ListNotations.
+Local Open Scope R_scope.
+
+(* the accumulated sums are the weighted power sums for every order 0..2K (the order-K sum included) *)
+Theorem C09_sums_spec : forall (K : nat) (S : list (@sample RNum)) (j : nat), (j <= 2 * K)%nat ->
+  nth j (@sums_of RNum K S) 0 = sumf (fun s => W s * X s ^ j) S.
+Proof. exact sums_of_spec. Qed.
+Print Assumptions C09_sums_spec.
+Theorem C09_rhs_spec : forall (S : list (@sample RNum)) (k : nat),
+  @rhs_entry RNum S k = sumf (fun s => W s * X s ^ k * Y s) S.
+Proof. exact rhs_entry_spec. Qed.
+Print Assumptions C09_rhs_spec.
+
+Theorem C09_residual_orthogonal : forall (K : nat) (S : list (@sample RNum)) (c : list R),
+  NE K S c -> forall k, (k < K)%nat -> sumf (fun s => W s * X s ^ k * (Y s - P K c (X s))) S = 0.
+Proof. exact normal_eq_orthogonal. Qed.
+Print Assumptions C09_residual_orthogonal.
+
+Theorem C09_lsq_optimal : forall (K : nat) (S : list (@sample RNum)) (c c' : list R),
+  NE K S c -> (forall s, In s S -> 0 <= W s) -> SS K S c <= SS K S c'.
+Proof. exact lsq_optimal. Qed.
+Print Assumptions C09_lsq_optimal.
+
+Theorem C09_exact_recovery : forall (K : nat) (S : list (@sample RNum)) (q c : list R),
+  (forall s, In s S -> Y s = P K q (X s)) -> NE K S c ->
+  (forall a b, NE K S a -> NE K S b -> forall j, (j < K)%nat -> nth j a 0 = nth j b 0) ->
+  forall j, (j < K)%nat -> nth j c 0 = nth j q 0.
+Proof. exact lsq_exact_recovery. Qed.
+Print Assumptions C09_exact_recovery.
+
+Theorem C09_best_fit_line_is_deg1 : forall xs ys : list R,
+  INR (length xs) <> 0 ->
+  INR (length xs) * @sum_list RNum (map (fun x => @nmul RNum x x) xs) - @sum_list RNum xs * @sum_list RNum xs <> 0 ->
+  INR (length xs) * snd (@best_fit_line RNum xs ys) + @sum_list RNum xs * fst (@best_fit_line RNum xs ys) = @sum_list RNum ys /\
+  @sum_list RNum xs * snd (@best_fit_line RNum xs ys)
+    + @sum_list RNum (map (fun x => @nmul RNum x x) xs) * fst (@best_fit_line RNum xs ys)
+    = @sum_list RNum (map (fun p => @nmul RNum (fst p) (snd p)) (combine xs ys)).
+Proof. exact best_fit_line_normal_eqs. Qed.
+Print Assumptions C09_best_fit_line_is_deg1.
+
+Theorem C09_three_point_through : forall (p0 p1 p2 : R * R) cx cy r,
+  @circle3 RNum p0 p1 p2 = Ok (cx, cy, r) ->
+  (cx - fst p0) ^ 2 + (cy - snd p0) ^ 2 = r ^ 2 /\
+  (cx - fst p1) ^ 2 + (cy - snd p1) ^ 2 = r ^ 2 /\
+  (cx - fst p2) ^ 2 + (cy - snd p2) ^ 2 = r ^ 2.
+Proof. exact circle3_through. Qed.
+Print Assumptions C09_three_point_through.
+Theorem C09_three_point_collinear : forall p0 p1 p2 : R * R,
+  (fst p0 - fst p1) * (snd p1 - snd p2) - (fst p1 - fst p2) * (snd p0 - snd p1) = 0 -> @circle3 RNum p0 p1 p2 = Err.
+Proof. exact circle3_collinear_rejected. Qed.
+Print Assumptions C09_three_point_collinear.
+
+Theorem C09_circle_jacobian_dcx : forall (p : R * R) (w cx cy r : R),
+  0 < (cx - fst p) * (cx - fst p) + (cy - snd p) * (cy - snd p) ->
+  is_derive (fun t => res_w p w t cy r) cx (fst (fst (jac_row p w cx cy))).
+Proof. exact jac_dcx. Qed.
+Print Assumptions C09_circle_jacobian_dcx.
+Theorem C09_circle_jacobian_dcy : forall (p : R * R) (w cx cy r : R),
+  0 < (cx - fst p) * (cx - fst p) + (cy - snd p) * (cy - snd p) ->
+  is_derive (fun t => res_w p w cx t r) cy (snd (fst (jac_row p w cx cy))).
+Proof. exact jac_dcy. Qed.
+Print Assumptions C09_circle_jacobian_dcy.
+Theorem C09_circle_jacobian_dr : forall (p : R * R) (w cx cy r : R),
+  is_derive (fun t => res_w p w cx cy t) r (snd (jac_row p w cx cy)).
+Proof. exact jac_dr. Qed.
+Print Assumptions C09_circle_jacobian_dr.
+
+Theorem C09_ransac_best : forall (pts : list (R * R)) (tol : R) (cands : list (option (@circle RNum))),
+  let '(best, k) := @ransac_pick RNum pts tol cands in
+  (forall c, In (Some c) cands -> (@inliers RNum pts tol c <= k)%nat) /\
+  match best with
+  | Some c => In (Some c) cands /\ @inliers RNum pts tol c = k /\ (0 < k)%nat
+  | None => k = 0%nat
+  end.
+Proof. exact ransac_pick_best. Qed.
+Print Assumptions C09_ransac_best.
+
+(* non-vacuity: the D6 witness data satisfy the normal equations with their own coefficients *)
+Example C09_nonvacuous :
+  NE 3 [((0, 1), 1); ((1, 6), 1); ((2, 17), 1)] [1; 2; 3].
+Proof. apply exact_poly_solves. intros s [<- | [<- | [<- | []]]]; unfold Y, X, P; cbn; lra. Qed.
